@@ -4,7 +4,7 @@ import json, os, sys
 VERIF = os.path.dirname(os.path.dirname(os.path.abspath(__file__)))
 pid, tests, dw, do, checks = sys.argv[1:6]
 note = sys.argv[6] if len(sys.argv) > 6 else ""
-d = os.path.join(VERIF, "seeded", pid)
+d = os.path.join(VERIF, "seeded", os.environ.get("SEED_NAME") or pid)
 agent = {}
 p = os.path.join(d, "agent_meta.json")
 if os.path.exists(p):
@@ -16,6 +16,6 @@ meta = {"property": pid, "breaks": agent.get("summary"), "needs": agent.get("nee
         "confirmed": {"repository_tests_with_change": tests, "demo_exit_with_change": int(dw), "demo_exit_without_change": int(do)},
         "checks_against_change": {c.split(":")[0]: ("VIOLATION reported" if c.split(":")[1] == "1" else "not detected" if c.split(":")[1] == "0" else "harness error")
                                   for c in checks.split()},
-        "what_was_run": ["tools/seed_eval.sh %s" % pid], "note": note, "author": "independent sub-agent given only the property text and a scratch worktree"}
+        "what_was_run": ["tools/seed_eval.sh %s (tests in the scratch worktree, demo with/without, checks against /repo with the patch applied, patch undone)" % pid], "note": note, "author": "independent sub-agent given only the property text and a scratch worktree"}
 json.dump(meta, open(os.path.join(d, "meta.json"), "w"), indent=1)
 print(json.dumps(meta["checks_against_change"]))
